@@ -700,7 +700,7 @@ func genC28Req(t *rapid.T) c28Req {
 			r.Rate = rapid.SampledFrom([]string{"2", "0", "-1", "99999999999999999999", "abc", "1.5", "4294967296", "-9223372036854775808"}).Draw(t, "samplerate")
 		}
 	}
-	r.Key = rapid.SampledFrom([]string{"env", "env", "legacy", "none", "junk"}).Draw(t, "key")
+	r.Key = rapid.SampledFrom([]string{"env", "env", "legacy", "none", "junk", "env2", "auth401", "auth500", "authgarbage", "authhangup"}).Draw(t, "key")
 	r.Dataset = "ds"
 	if c28Rarely(t, 4, "odd-dataset") {
 		r.Dataset = rapid.SampledFrom(c28Datasets).Draw(t, "dataset")
@@ -721,7 +721,53 @@ func genC28Req(t *rapid.T) c28Req {
 	return r
 }
 
+var c28FailKeys = []string{"auth401", "auth500", "authgarbage", "authhangup"}
+
+// genC28PlainReq: a well-formed ingestion request (no mutation) with the given key.
+func genC28PlainReq(t *rapid.T, label, key string) c28Req {
+	r := c28Req{Method: "POST", CT: "=", EncHdr: "=", Dataset: "ds", Key: key}
+	switch rapid.IntRange(0, 5).Draw(t, label+"-where") {
+	case 0:
+		r.Target, r.Endpoint, r.Base = "grpc", c28GRPCMethods[0], "otlp-trace-pb"
+	case 1:
+		r.Target, r.Endpoint, r.Base = "grpc", c28GRPCMethods[1], "otlp-logs-pb"
+	default:
+		r.Target = rapid.SampledFrom([]string{"incoming", "incoming", "peer"}).Draw(t, label+"-listener")
+		r.Endpoint = rapid.SampledFrom([]string{"/1/batch/{ds}", "/1/events/{ds}", "/v1/traces", "/v1/logs"}).Draw(t, label+"-endpoint")
+		r.Base = map[string][]string{"/1/events/{ds}": {"event-json", "event-msgpack"}, "/1/batch/{ds}": {"batch-msgpack", "batch-json"},
+			"/v1/traces": {"otlp-trace-pb", "otlp-trace-json"}, "/v1/logs": {"otlp-logs-pb", "otlp-logs-json"}}[r.Endpoint][rapid.IntRange(0, 1).Draw(t, label+"-format")]
+	}
+	return r
+}
+
+// genC28LookupHistory: a history on one live router in which the environment
+// lookup (/1/auth) FAILS for some request (401, 500, undecodable answer,
+// connection hung up) and further requests with environment-style keys follow:
+// the same failing key, another failing key, a good key that is already cached,
+// a good key that is not.
+func genC28LookupHistory(t *rapid.T) c28Case {
+	var reqs []c28Req
+	if rapid.Bool().Draw(t, "warm-cache-first") {
+		reqs = append(reqs, genC28PlainReq(t, "warm", "env"))
+	}
+	reqs = append(reqs, genC28PlainReq(t, "fail", rapid.SampledFrom(c28FailKeys).Draw(t, "fail-key")))
+	n := rapid.IntRange(1, 3).Draw(t, "n-after")
+	for i := 0; i < n; i++ {
+		key := rapid.SampledFrom([]string{"env", "env2", "env", "auth401", "authgarbage", "authslow"}).Draw(t, "after-key")
+		r := genC28PlainReq(t, "after", key)
+		if rapid.IntRange(0, 3).Draw(t, "after-mutated") == 0 {
+			fam := c28Family(r.Base)
+			r.Pre = []c28Mut{genC28Mut(t, "after-mut", fam)}
+		}
+		reqs = append(reqs, r)
+	}
+	return c28Case{Mode: "request", Reqs: reqs}
+}
+
 func genC28Request(t *rapid.T) c28Case {
+	if rapid.IntRange(0, 3).Draw(t, "lookup-failure-history") == 3 {
+		return genC28LookupHistory(t)
+	}
 	return c28Case{Mode: "request", Reqs: rapid.SliceOfN(rapid.Custom(genC28Req), 1, 5).Draw(t, "reqs")}
 }
 
